@@ -410,8 +410,8 @@ def tck_tag_rule(F, rep):
         if h is None:
             rep.missing_anchor(rid, fn)
             continue
-        ks = {(x.get("callee") or x.get("path") or "")[len(VAL):] for x, _ in find_hir(h["body"], lambda x: x.get("k") in ("Call", "Path") and (x.get("callee") or x.get("path") or "").startswith(VAL))}
-        produced[t] = ks - {"Null"}
+        ks = {(x.get("callee") or x.get("path") or "")[len(VAL):] for hh in with_helpers(F, fn) for x, _ in find_hir(hh["body"], lambda x: x.get("k") in ("Call", "Path") and (x.get("callee") or x.get("path") or "").startswith(VAL))}
+        produced[t] = {k for k in ks if "::" not in k} - {"Null"}
     by_kind = {}
     for w, tab in sorted(writers.items()):
         for k, tags in sorted(tab.items()):
@@ -442,14 +442,39 @@ def xsd_number_rule(F, rep, rid, reader):
         h = F.hir.get(fn)
         if h is None:
             continue
-        parses = [c for c, _ in find_hir(h["body"], lambda x: x.get("k") in ("MethodCall", "Call") and ((x.get("method") == "parse" and "str" in (x.get("callee") or "")) or (x.get("callee") or "").endswith("FromStr>::from_str") or (x.get("callee") or "").endswith("::from_str")))]
-        tys = [F.ty(h, c["t"]) for c in parses if c.get("t") is not None]
+        parses, tys = [], []
+        for hh in with_helpers(F, fn):
+            ps = [c for c, _ in find_hir(hh["body"], lambda x: x.get("k") in ("MethodCall", "Call") and ((x.get("method") == "parse" and "str" in (x.get("callee") or "")) or (x.get("callee") or "").endswith("FromStr>::from_str") or (x.get("callee") or "").endswith("::from_str")))]
+            parses += ps
+            tys += [F.ty(hh, c["t"]) for c in ps if c.get("t") is not None]
         key = "reader-number:%s" % t
         if tys and all("FeelNumber" in ty for ty in tys):
             rep.ok(rid, key, "parsed as FeelNumber")
+        elif not tys:
+            rep.undecided(rid, key, "%s: no parse of the text was found (in the function or the private helpers it calls)" % fn.split("::")[-1])
         else:
             rep.violation(rid, key, "%s parses the text as %s instead of as a FEEL number: values beyond that type's range (34-digit decimals) no longer round-trip" % (fn.split("::")[-1], tys or "?"),
                           "%s:%s" % (h["file"], h["line"]))
+
+
+def with_helpers(F, fn, depth=3):
+    """HIR of a function and of the functions of its own module it calls (a shared private helper is part of the reader)"""
+    out, seen, work = [], set(), [(fn, 0)]
+    prefix = fn.rsplit("::", 1)[0].rsplit("::", 1)[0] + "::" if fn.count("::") >= 2 else fn
+    while work:
+        n, d = work.pop()
+        if n in seen or n not in F.hir:
+            continue
+        seen.add(n)
+        h = F.hir[n]
+        out.append(h)
+        if d >= depth:
+            continue
+        for c, _ in find_hir(h["body"], lambda x: x.get("k") in ("Call", "MethodCall") and (x.get("callee") or "").startswith(prefix)):
+            work.append((c["callee"], d + 1))
+        for c, _ in find_hir(h["body"], lambda x: x.get("k") == "Closure" and x.get("name")):
+            work.append((c["name"], d))
+    return out
 
 
 def lit_strings(p, out=None):
